@@ -246,6 +246,18 @@ v('evict-key-without-slash','C09.gc-evicts-cache','kv/kv.go','''			cache.Remove(
 v('evict-key-name-first','C09.gc-evicts-cache','kv/kv.go','''			cache.Remove(fmt.Sprintf("%s/%s", s.persist.NodeURLPrefix(), l))''','''			cache.Remove(fmt.Sprintf("%s/%s", l, s.persist.NodeURLPrefix()))''')
 
 outdir=HERE+'/checker/selftest/variants'
+
+v('gc-collects-all-links','C09.gc-diff-pairs','kv/kv.go','''					if removed {
+						if ls, ok := link.(string); ok {
+							candidateBlocks[ls] = 1
+						}
+					}
+					return true, nil''','''					_ = removed
+					if ls, ok := link.(string); ok {
+						candidateBlocks[ls] = 1
+					}
+					return true, nil''')
+
 for f in os.listdir(outdir):
     if f.startswith('hc-'): os.remove(outdir+'/'+f)
 bad=0
